@@ -1213,6 +1213,7 @@ int main(int argc, char **argv)
     }
     if (argc >= 2 && strcmp(argv[1], "count-legacy") == 0) {
 	printf("%d\n", 2 + 2 * N_HEADERS);
+	fflush(stdout);	/* LeakSanitizer may _exit before stdio is flushed */
 	return 0;
     }
     fprintf(stderr, "usage: %s hist SEED FROM TO [MAXDIM] | "
